@@ -121,7 +121,7 @@ Section Cover.
     { intros _ Hr Hi. apply in_tag in Hi as [-> Hd]. exists c. split; [reflexivity|].
       unfold redirs_of in Hr. rewrite ok_flat_map in Hr. exact (Hr d Hd). }
     destruct (str_eqb k $"command") eqn:E; [apply str_eqb_eq in E; subst k|].
-    { rewrite walk_command in H. apply ok_combine in H. rewrite !ok_app in H. destruct H as [Hw [_ [_ [Hr _]]]].
+    { rewrite walk_command in H. apply ok_combine in H. rewrite !ok_app in H. destruct H as [Hw [_ [_ [_ [Hr _]]]]].
       apply in_app_or in Hin as [Hi|Hi]; [|exact (Hred tt Hr Hi)].
       apply in_tag in Hi as [-> Hd]. exists c. split; [reflexivity|].
       unfold wparts, wpartsb in Hw. rewrite ok_flat_map in Hw. exact (Hw d Hd). }
@@ -348,7 +348,7 @@ Section Cover.
         destruct Hs as [<-|[<-|[<-|[]]]]; assumption.
       + destruct (str_eqb k $"command") eqn:Ec; [|destruct Hs]. apply str_eqb_eq in Ec. subst k.
         apply ok_cons in H as [H _]. change (walk c (T $"command" ss fs ks) = Allow) in H.
-        rewrite walk_command in H. apply ok_combine in H. rewrite !ok_app in H. destruct H as [_ [Hn _]].
+        rewrite walk_command in H. apply ok_combine in H. rewrite !ok_app in H. destruct H as [_ [_ [Hn _]]].
         unfold cmd_names, cmd_words in Hn. unfold command_raws in Hs.
         exact (name_scans_ok _ _ _ _ _ _ Hn s Hs).
     - rewrite exp_unfold in H. destruct (mem_str k SUBST_KINDS); [destruct Hs|].
